@@ -344,6 +344,62 @@ def bounded(ctx):
             if k < _PER_SIG:
                 ctx.fail(sg, "%s / %s: %s" % (when, kind, what), witness={"late_listener": when, "kind": kind})
     ctx.done(exhaustive=True, note=("failing cases per signature: %r" % (seen,)) if seen else "")
+    # the events the library itself dispatches, with the event objects it builds for them
+    ctx.check("library_events",
+              "listeners at two priorities (the later one first; stopping or not) registered on a configuration for each of "
+              "the events the library dispatches itself - config (while the application is built), pre-resolve and pre-handle "
+              "(during a run): they are called in priority order with the library's own event object, each once, up to the "
+              "first one that stops the propagation")
+    for ev in ("config", "pre-resolve", "pre-handle"):
+        for stops in (False, True):
+            ctx.case([ev, stops], nontrivial=True)
+            for sg, what in library_event_case(ev, stops):
+                ctx.fail(sg, "%s / first listener stops=%s: %s" % (ev, stops, what), witness={"library_event": ev, "stops": stops})
+    ctx.done(exhaustive=True)
+
+
+def library_event_case(ev, stops):
+    from clikit import ConsoleApplication
+    from clikit.api.event import CONFIG, PRE_HANDLE, PRE_RESOLVE
+    from clikit.config import DefaultApplicationConfig
+    from clikit.args import StringArgs
+    from clikit.io.input_stream import StringInputStream
+    from clikit.io.output_stream import BufferedOutputStream
+
+    name = {"config": CONFIG, "pre-resolve": PRE_RESOLVE, "pre-handle": PRE_HANDLE}[ev]
+    calls = []
+
+    def mk(tag, stop):
+        def listener(event, event_name, dispatcher):
+            calls.append((tag, event_name, type(event).__name__))
+            if stop:
+                event.stop_propagation()
+        return listener
+
+    class Handler(object):
+        def handle(self, args, io, command):
+            return 0
+
+    cfg = DefaultApplicationConfig("app", "1.0")  # (registers listeners of its own for help and version)
+    cfg.set_catch_exceptions(False)
+    cfg.set_terminate_after_run(False)
+    with cfg.command("go") as c:
+        c.set_handler(Handler())
+    cfg.add_event_listener(name, mk("low", False), 0)
+    cfg.add_event_listener(name, mk("high", stops), 5)
+    try:
+        app = ConsoleApplication(cfg)
+        if ev != "config":
+            app.run(StringArgs("go"), StringInputStream(""), BufferedOutputStream(), BufferedOutputStream())
+    except Exception as e:
+        return [("library_events|%s|dispatch-raises|%s" % (ev, type(e).__name__), "dispatching the event raised %r" % (e,))]
+    want = ["high"] if stops else ["high", "low"]
+    got = [c[0] for c in calls]
+    if got != want:
+        return [("library_events|%s|wrong-calls" % ev, "listeners called: %r, expected %r" % (calls, want))]
+    if any(c[1] != name for c in calls):
+        return [("library_events|%s|wrong-event-name" % ev, "listeners saw %r" % (calls,))]
+    return []
 
 
 # ----------------------------------------------------------------------------- the same callable registered repeatedly
@@ -460,6 +516,9 @@ def replay_bounded(check_id, failure):
             if when == w["late_listener"] and kind == w["kind"]:
                 return {"fails": bool(fails), "detail": "; ".join("%s: %s" % f for f in fails) or "behaves as specified"}
         return {"fails": False, "detail": "no such case"}
+    if w.get("library_event"):
+        fails = library_event_case(w["library_event"], bool(w.get("stops")))
+        return {"fails": bool(fails), "detail": "; ".join("%s: %s" % f for f in fails) or "behaves as specified"}
     if w.get("shared_ops"):
         f = run_shared(tuple(tuple(o) for o in w["shared_ops"]))
         if f is None:
